@@ -467,7 +467,7 @@ fn compare_meta(path: &str, req: &Val, got: Option<&Val>, out: &mut Vec<(String,
 pub fn oracle_fieldwise(w: &mut Worker, case: &Case) -> Vec<Violation> {
     let outs = w.golden(case);
     let mut v = vec![];
-    let tool = case.steps[0].argv[0].clone();
+    let tool = if case.steps[0].argv.iter().any(|a| a == "--mission") { "trumsg-mission".to_string() } else { case.steps[0].argv[0].clone() };
     let game = case.steps[0].argv.iter().skip_while(|a| *a != "-g").nth(1).cloned().unwrap_or_default();
     if outs.is_empty() {
         return v;
@@ -599,7 +599,9 @@ struct Prof {
     strings: Option<&'static str>,
 }
 
-const PROFS: [Prof; 12] = [
+const PROFS: [Prof; 14] = [
+    Prof { tool: "trumsg-mission", game: "th095", magic: "", diff: false, fixed12: false, strings: None },
+    Prof { tool: "trumsg-mission", game: "th125", magic: "", diff: false, fixed12: false, strings: None },
     Prof { tool: "truanm", game: "th06", magic: "!anmmap", diff: false, fixed12: false, strings: Some("z(bs=4)") },
     Prof { tool: "truanm", game: "th07", magic: "!anmmap", diff: false, fixed12: false, strings: Some("z(bs=4)") },
     Prof { tool: "truanm", game: "th12", magic: "!anmmap", diff: false, fixed12: false, strings: Some("z(bs=4)") },
@@ -745,6 +747,28 @@ fn gen_program(p: &Prof, r: &mut Rng) -> (String, String) {
         s
     };
     let mut src = String::new();
+    if p.tool == "trumsg-mission" {
+        let w16: &[i64] = if wild { &[0, 1, 255, 256, 65535, 65536, 70000] } else { &[0, 1, 12, 255, 256, 1000, 65535] };
+        let w8: &[i64] = if wild { &[0, 1, 255, 256, 511] } else { &[0, 1, 2, 127, 128, 255] };
+        let w32 = [0i64, 1, 9999, 65536, 2147483647];
+        let line = |r: &mut Rng| -> String {
+            let n = *r.pick(&[0usize, 1, 5, 20, 40]);
+            (0..n).map(|i| (b'a' + ((i * 5 + n) % 26) as u8) as char).collect()
+        };
+        for _ in 0..r.range(1, 3) {
+            if p.game == "th095" {
+                src.push_str(&format!("entry {{\n    stage: {},\n    scene: {},\n    face: {},\n    point: {},\n    text: [\"{}\", \"{}\", \"{}\"],\n}}\n", r.pick(w16), r.pick(w16), r.pick(&w32), r.pick(&w32), line(r), line(r), line(r)));
+            } else {
+                src.push_str(&format!(
+                    "entry {{\n    stage: {},\n    scene: {},\n    player: {},\n    unknown_1: {},\n    unknown_2: {},\n    point_1: {},\n    point_2: {},\n    furigana: [[{}, {}], [{}, {}], [{}, {}]],\n    text: [\"{}\", \"{}\", \"{}\", \"{}\", \"{}\", \"{}\"],\n}}\n",
+                    r.pick(w16), r.pick(w16), r.pick(w16), r.pick(w8), r.pick(w8), r.pick(&w32), r.pick(&w32),
+                    r.pick(&w32), r.pick(&w32), r.pick(&w32), r.pick(&w32), r.pick(&w32), r.pick(&w32),
+                    line(r), line(r), line(r), line(r), line(r), line(r)
+                ));
+            }
+        }
+        return (src, String::new());
+    }
     match p.tool {
         "truanm" => {
             let nentries = r.range(1, 2);
@@ -815,8 +839,14 @@ pub fn field_cases(ctx: &Ctx) -> Vec<Case> {
             let (src, map) = gen_program(p, &mut r);
             let inputs = vec![Input::tree("map/"), Input::text(crate::scen::SRC, &src), Input::text("fields.map", &map)];
             let sv = |xs: &[&str]| xs.iter().map(|s| s.to_string()).collect::<Vec<String>>();
-            let compile = Step::new(sv(&[p.tool, "compile", "-g", p.game, crate::scen::SRC, "-o", crate::scen::OUT, "-m", "fields.map"]));
-            let dec = Step::new(sv(&[p.tool, "decompile", "-g", p.game, crate::scen::OUT, "-o", crate::scen::DEC, "-m", "fields.map", "--no-blocks", "--no-intrinsics", "--no-diff-switches", "--no-calls"]));
+            let (compile, dec) = if p.tool == "trumsg-mission" {
+                (Step::new(sv(&["trumsg", "compile", "--mission", "-g", p.game, crate::scen::SRC, "-o", crate::scen::OUT])), Step::new(sv(&["trumsg", "decompile", "--mission", "-g", p.game, crate::scen::OUT, "-o", crate::scen::DEC])))
+            } else {
+                (
+                    Step::new(sv(&[p.tool, "compile", "-g", p.game, crate::scen::SRC, "-o", crate::scen::OUT, "-m", "fields.map"])),
+                    Step::new(sv(&[p.tool, "decompile", "-g", p.game, crate::scen::OUT, "-o", crate::scen::DEC, "-m", "fields.map", "--no-blocks", "--no-intrinsics", "--no-diff-switches", "--no-calls"])),
+                )
+            };
             out.push(Case { property: "C03".into(), oracle: "fieldwise".into(), name: format!("fields:{}:{}#{}", p.tool, p.game, k), inputs, steps: vec![compile, dec], meta: json!({}) });
         }
     }
